@@ -56,6 +56,10 @@ func (core *JApiCore) drainCurrentScanner() *jerr.JApiError {
 
 // simply decides which function to call based on lexeme type
 func (core *JApiCore) next(lexeme scanner.Lexeme) *jerr.JApiError {
+	if je := core.checkLexemeHasDirective(lexeme); je != nil {
+		return je
+	}
+
 	switch lexeme.Type() {
 	case scanner.Keyword:
 		return core.processKeyword(lexeme)
@@ -81,6 +85,33 @@ func (core *JApiCore) next(lexeme scanner.Lexeme) *jerr.JApiError {
 	default:
 		panic(jerr.RuntimeFailure)
 	}
+}
+
+// checkLexemeHasDirective returns an error if the lexeme has to be attached to
+// the current directive, but there is none. It happens, for example, for an opening
+// parenthesis which doesn't follow a directive, or for the rest of the INCLUDE
+// line (the INCLUDE directive has the only parameter and never becomes current).
+func (core *JApiCore) checkLexemeHasDirective(lexeme scanner.Lexeme) *jerr.JApiError {
+	if core.currentDirective != nil {
+		return nil
+	}
+
+	switch lexeme.Type() { //nolint:exhaustive // The others don't need the current directive.
+	case scanner.Parameter:
+		return core.japiError(
+			fmt.Sprintf("%s %q", jerr.IncorrectParameter, lexeme.Value().Unquote().String()),
+			lexeme.Begin())
+
+	case scanner.Annotation:
+		return core.japiError(jerr.AnnotationIsForbiddenForTheDirective, lexeme.Begin())
+
+	case scanner.Schema, scanner.Text, scanner.Json, scanner.Enum:
+		return core.japiError(jerr.IncorrectDirectiveContext, lexeme.Begin())
+
+	case scanner.ContextExplicitOpening:
+		return core.japiError(jerr.ThereIsNoDirectiveForExplicitContext, lexeme.Begin())
+	}
+	return nil
 }
 
 func (core *JApiCore) processKeyword(lexeme scanner.Lexeme) *jerr.JApiError {
